@@ -193,6 +193,10 @@ type Info struct {
 	Classes    []string
 }
 
+// Count records one executed case from inside a harness that explores many
+// cases per generated scenario (e.g. every crash image of a scenario).
+func (r *Rec) Count(sub string, sc any, in Info) { r.count(sub, sc, in) }
+
 func (r *Rec) count(sub string, sc any, in Info) {
 	r.mu.Lock()
 	defer r.mu.Unlock()
